@@ -15,7 +15,7 @@ ASSUMPTIONS = [
     "delivery model: per-channel FIFO interleavings, sleep-set reduced (handlers touch only their own computation)",
 ]
 BOUNDS = {
-    "quick": "MGM: pair, chain-3 (min/max), pair with variable cost, pair with two constraints and own costs on both variables; MGM2: pair (min/max); stop_cycle 3; all schedules and start orders on pairs, one canonical schedule on chain-3",
+    "quick": "MGM: pair (also with break_mode=random), chain-3 (min/max), pair with variable cost, pair with two constraints and own costs on both variables; MGM2: pair (min/max); stop_cycle 3; all schedules and start orders on pairs, one canonical schedule on chain-3",
     "thorough": "quick + MGM: chain-3 with all schedules, triangle, star-3, ternary, chain-3 with variable cost; MGM2: chain-3, pair with variable cost, triangle (stop_cycle 2)",
 }
 OUTSIDE = "more than 4 variables, domain above 2, more than 3 cycles per run (covered inductively through arbitrary initial values)"
@@ -32,6 +32,9 @@ def jobs(tier):
             out.append({"name": "mgm-chain3-allsched-%s" % mode, "algo": "mgm", "spec": spec("chain3", mode), "stop": 3,
                         "upfront": True})
         out.append({"name": "mgm-pairvcost-%s" % mode, "algo": "mgm", "spec": spec("pair_vcost", mode), "stop": 3})
+        # non-default tie-break parameter
+        out.append({"name": "mgm-pair-breakrandom-%s" % mode, "algo": "mgm", "spec": spec("pair", mode), "stop": 3,
+                    "params": {"break_mode": "random"}})
         out.append({"name": "mgm-pairdblvcost-%s" % mode, "algo": "mgm", "stop": 3, "upfront": True,
                     "spec": spec("pair_dbl_vcost2", mode, pins={"c1_00": 0, "c1_01": 0, "c1_10": 0, "c1_11": 0})})
         out.append({"name": "mgm2-pair-%s" % mode, "algo": "mgm2", "spec": spec("pair", mode), "stop": 3, "upfront": True})
